@@ -159,11 +159,19 @@ class VFS:
         return LazyIter(gen(self.abs(top)))
 
 
+_CURRENT = [None]       # the interpreter on whose behalf the hook is running (for os.PathLike objects of the project)
+
+
 def sval(x):
     if isinstance(x, PathV):
         return x.s
     if isinstance(x, str):
         return x
+    it = _CURRENT[0]
+    if it is not None and isinstance(x, Sym) and x.cls is not None:
+        m = x.cls.find_method("__fspath__")
+        if m is not None:
+            return sval(it.call(it.prj.func(m.qual, raw=True), [], {}, x))
     raise Unknown(f"path argument {x!r}")
 
 
@@ -271,6 +279,7 @@ def fs_hook(vfs: VFS):
         raise Unknown(f"Path.{name}")
 
     def hook(it, kind, f, args, kwargs, node, cur):
+        _CURRENT[0] = it
         if kind == "getattr" and isinstance(f, FileV):
             if args in ("read", "readlines", "close", "__enter__", "__exit__", "readline", "write", "flush", "writelines"):
                 return ("filem", f, args)
